@@ -400,8 +400,8 @@ class Project(MessageHandler):
             if not task.leaf():
                 continue
             # Own dependencies and those inherited from the enclosing containers
-            deps = []
-            node = task
+            deps: list[Any] = []
+            node: Optional[Any] = task
             while node:
                 deps.extend(node.get("depends", scIdx) or [])
                 node = node.parent
